@@ -65,13 +65,15 @@ type c02LBCase struct {
 }
 
 type c02LBReq struct {
-	id      int
-	prog    []c02Step
-	entered int32
-	expect  bool          // send Expect: 100-continue
-	endNS   int64         // UnixNano at which the handler returned or panicked (0: never ran)
-	inside  chan struct{} // conns: handler announces itself
-	gate    chan struct{} // conns: handler waits for the harness
+	id       int
+	prog     []c02Step
+	entered  int32
+	guard    bool          // the server has a route timeout: the handler writes into the timeout guard's buffer
+	hijacked int32         // the handler got hold of the connection through http.ResponseController
+	expect   bool          // send Expect: 100-continue
+	endNS    int64         // UnixNano at which the handler returned or panicked (0: never ran)
+	inside   chan struct{} // conns: handler announces itself
+	gate     chan struct{} // conns: handler waits for the harness
 }
 
 var (
@@ -107,8 +109,24 @@ func c02LBHandler(w http.ResponseWriter, r *http.Request) {
 		switch s.K {
 		case "H":
 			w.Header().Set(c02HdrKey(q.id, i), c02HdrVal(q.id, i))
-		case "S":
+		case "S", "I":
 			w.WriteHeader(s.N)
+		case "F":
+			if fl, ok := w.(http.Flusher); ok {
+				fl.Flush()
+			}
+		case "RF":
+			_ = http.NewResponseController(w).Flush()
+		case "RH":
+			if conn, _, err := http.NewResponseController(w).Hijack(); err == nil && conn != nil {
+				atomic.AddInt32(&q.hijacked, 1)
+				conn.Close()
+				return
+			}
+		case "RD":
+			rc := http.NewResponseController(w)
+			_ = rc.SetWriteDeadline(time.Now().Add(time.Hour))
+			_ = rc.SetReadDeadline(time.Now().Add(time.Hour))
 		case "W":
 			w.Write(c02Chunk(q.id, i, s.N))
 		case "C":
@@ -273,7 +291,11 @@ func c02LBPlan(q *c02LBReq) c02Plan {
 			prog[i] = c02Step{K: "Z", N: 0}
 		}
 	}
-	return c02MakePlan(c02Case{R: []c02Route{{M: "POST"}}}, q.id, c02Req{Cn: -1, P: prog})
+	t := 0
+	if q.guard {
+		t = 1000 // any timeout: these programs take no time; what matters is that the guard's buffer is in the way
+	}
+	return c02MakePlan(c02Case{T: t, R: []c02Route{{M: "POST"}}}, q.id, c02Req{Cn: -1, P: prog})
 }
 
 func c02LBOwn(q *c02LBReq, r c02LBResp) string {
@@ -327,7 +349,15 @@ func c02LBValid(c c02LBCase) bool {
 	nC := 0
 	for _, s := range c.P {
 		switch s.K {
-		case "H", "P":
+		case "H", "P", "F", "RF", "RD":
+		case "RH":
+			if c02LBConfs[c.S].T == 0 {
+				return false // with no guard in the way a hijack succeeds for real: outside the statement
+			}
+		case "I":
+			if s.N != 100 && s.N != 102 && s.N != 103 {
+				return false
+			}
 		case "S":
 			if (s.N < 200 || s.N > 599) && !c02BadStatus(s.N) {
 				return false
@@ -375,6 +405,11 @@ func c02LBRun(c c02LBCase) (v kit.Verdict) {
 		return v
 	}
 	cf := c02LBConfs[c.S]
+	c02LBNew := func(prog []c02Step) *c02LBReq { // every request of this case goes to the same server
+		q := c02LBNew(prog)
+		q.guard = cf.T > 0
+		return q
+	}
 	cls := map[string]bool{"kind-" + c.K: true, fmt.Sprintf("server-%d", c.S): true}
 	defer func() {
 		for k := range cls {
@@ -418,6 +453,15 @@ func c02LBRun(c c02LBCase) (v kit.Verdict) {
 			cls["machine-stalled"] = true
 			v.Excluded = true
 			return v
+		}
+		if p.info {
+			cls["informational-1xx-first"] = true
+		}
+		if p.ctl {
+			cls["flush/response-controller"] = true
+		}
+		if atomic.LoadInt32(&q.hijacked) != 0 {
+			return v.Failf("loopback server %+v: the handler could hijack the connection through http.ResponseController although the timeout guard stands in between; got %s", cf, r)
 		}
 		if s := c02LBOwn(q, r); s != "" {
 			return v.Failf("loopback server %+v, handler returns at once: want its own response: %s; got %s", cf, s, r)
@@ -572,13 +616,25 @@ func c02LBGen(rt *rapid.T) c02LBCase {
 	}
 	steps := func(n int, panicOK bool) []c02Step {
 		var p []c02Step
-		wrote := false
+		wrote, flushed, infos := false, false, 0
 		for i := 0; i < n; i++ {
-			kinds := []string{"S", "W", "W"}
-			if !wrote {
+			kinds := []string{"S", "W", "W", "F", "RF", "RD"}
+			if !wrote && !flushed && infos == 0 {
 				kinds = append(kinds, "H", "H")
 			}
-			switch rapid.SampledFrom(kinds).Draw(rt, "k") {
+			if !wrote && !flushed && infos < 2 {
+				kinds = append(kinds, "I")
+			}
+			if c.S != 1 {
+				kinds = append(kinds, "RH")
+			}
+			switch k := rapid.SampledFrom(kinds).Draw(rt, "k"); k {
+			case "I":
+				infos++
+				p = append(p, c02Step{K: "I", N: rapid.SampledFrom([]int{100, 102, 103}).Draw(rt, "info")})
+			case "F", "RF", "RD", "RH":
+				p = append(p, c02Step{K: k})
+				flushed = flushed || k == "F" || k == "RF"
 			case "H":
 				p = append(p, c02Step{K: "H"})
 			case "S":
@@ -605,7 +661,7 @@ func c02LBGen(rt *rapid.T) c02LBCase {
 		}
 		c.P = append(c.P, c02Step{K: "C"})
 		for _, s := range steps(rapid.IntRange(0, 2).Draw(rt, "post"), false) {
-			if s.K != "H" {
+			if s.K != "H" && s.K != "I" {
 				c.P = append(c.P, s)
 			}
 		}
